@@ -95,6 +95,10 @@ func getCode(err error) string {
 		code = fmt.Sprintf("drpcerr(%d)", dcode)
 	}
 	for i := 0; i < 100; i++ {
+		if err == nil {
+			// an Unwrap or Cause that returns nil ends the chain.
+			return code
+		}
 		if m := reflect.ValueOf(err).MethodByName("Code"); m.IsValid() {
 			if mt := m.Type(); mt.NumIn() == 0 && mt.NumOut() == 1 &&
 				mt.Out(0).Kind() == reflect.String {
